@@ -80,6 +80,9 @@ def observe(calc) -> dict:
             "gpa_real": float(_from_gpa(1.0)),
             "mode_gamma": [numpy.array(a) for a in calc.mode_gamma],
             "freq_array": numpy.array(calc.freq_array),
+            "p_tv": numpy.array(calc.qha_calculator.volume_base.pressures),
+            "cv_tv": numpy.array(calc.qha_calculator.volume_base.heat_capacity),
+            "v_tp": numpy.array(calc.qha_calculator.pressure_base.volumes),
         }
         qv = ob["qha_volumes"]
         ob["e_strains"] = numpy.array(calculate_eulerian_strain(qv[0], qv))
@@ -262,6 +265,19 @@ def oracle(files: Dict[str, str], files_alt: Optional[Dict[str, str]] = None, on
     if sorted(ob["keys"]) != ref["keys"]:
         fail("keys", sorted(ob["keys"]), ref["keys"])
         return fails
+    # --- "evaluated with the spectrum ... read from those files": the thermodynamic fields the phonon part takes from the QHA
+    #     layer (P(T,V) for the off-diagonal terms, C_V for the adiabatic correction, V(T,P)) are those of the qha package run
+    #     directly on the phonon file (its own reader; no cij code in between)
+    try:
+        qd = tvdata.qha_direct(files)
+    except Exception as e:                                          # the external package refuses the file: nothing to compare
+        qd = None
+    if qd is not None:
+        for name, got, want in (("P(T,V)", ob["p_tv"], qd["p_tv_au"]), ("C_V(T,V)", ob["cv_tv"], qd["cv_tv_au"]),
+                                ("V(T,P)", ob["v_tp"], qd["v_tp_bohr3"])):
+            if got.shape != want.shape or not family_close(got, want, rtol=1e-10)[0]:
+                fail("qha_layer", {"field": name, "first_row": got.reshape(len(got), -1)[min(1, len(got) - 1), :3]},
+                     {"field": name, "first_row": want.reshape(len(want), -1)[min(1, len(want) - 1), :3]})
     # --- the mode parameters the phonon part is "evaluated with": order [V dγ/dV, γ, γ²]
     if ref["modes"] is not None:
         mg = ob["mode_gamma"]
